@@ -931,13 +931,13 @@ class MEDDLY::forest {
         }
 
         /// Get the cardinality of an Index Set.
-        inline int getIndexSetCardinality(node_handle node) const {
+        inline long getIndexSetCardinality(node_handle node) const {
             if (!isIndexSet()) {
                 throw error(error::FOREST_MISMATCH, __FILE__, __LINE__);
             }
             if (isTerminalNode(node)) return (node != 0) ? 1 : 0;
-            // yes iff the unhashed extra header is non-zero.
-            const int* uhh = (const int*) nodeMan->getUnhashedHeaderOf(
+            // The unhashed extra header holds the cardinality, as a long.
+            const long* uhh = (const long*) nodeMan->getUnhashedHeaderOf(
                     getNodeAddress(node)
             );
             MEDDLY_DCASSERT(*uhh > 0);
